@@ -65,5 +65,45 @@ def run(ck: Check):
                            "energy_error_last_quarter": float(np.max(dE[-q:]))})
         tr = cs.trace(f"order={order}|event-vs-plain", {"event_matches_plain": -90}, {"order": order, "path": "event-vs-plain"})
         cs.obs(tr, "event_matches_plain", float(np.max(np.abs(evs - plain))) if evs.shape == plain.shape else 1.0)
+    # "every polynomial Hamiltonian": one with a LINEAR part (not an expansion about an equilibrium).  H = (q1^2 + p1^2)/2
+    # + (q2^2 + p2^2) + b1 q1 + b2 p2: two shifted harmonic oscillators, exact flow known; the scheme must converge to it.
+    H1 = List()
+    for d in range(3):
+        H1.append(np.zeros(len(pu.enum(d)), dtype=np.complex128))
+    psi2, clmo2 = _init_index_tables(2)
+    enc2 = _create_encode_dict_from_clmo(clmo2)
+
+    def put1(k, c):
+        ks = [tuple(x) for x in pu.enum(sum(k))]
+        H1[sum(k)][ks.index(k)] = c
+    b1, b2 = 0.3, -0.2
+    for k, c in (((2, 0, 0, 0, 0, 0), 0.5), ((0, 0, 0, 2, 0, 0), 0.5), ((0, 2, 0, 0, 0, 0), 1.0), ((0, 0, 0, 0, 2, 0), 1.0),
+                 ((1, 0, 0, 0, 0, 0), b1), ((0, 0, 0, 0, 1, 0), b2)):
+        put1(k, c)
+    H1[0][0] = 0.7                                  # an energy offset
+    ham1 = create_hamiltonian_system(H1, 2, psi2, clmo2, enc2, n_dof=3)
+    z0 = np.array([0.4, -0.3, 0.0, 0.2, 0.5, 0.0])
+
+    def exact1(tt):
+        # pair 1: q'' = -(q + b1): q + b1 rotates with frequency 1;  pair 2: H = q^2 + p^2 + b2 p: (q, p + b2/2) rotates with frequency 2
+        u, v = z0[0] + b1, z0[3]
+        a, c = z0[1], z0[4] + b2 / 2
+        return np.column_stack([u * np.cos(tt) + v * np.sin(tt) - b1, a * np.cos(2 * tt) + c * np.sin(2 * tt), 0 * tt,
+                                -u * np.sin(tt) + v * np.cos(tt), -a * np.sin(2 * tt) + c * np.cos(2 * tt) - b2 / 2, 0 * tt])
+    for order in ((2, 4) if ck.quick else (2, 4, 6, 8)):
+        errs = []
+        for dtt in (0.02, 0.01):
+            tt = np.linspace(0.0, 10.0, int(round(10.0 / dtt)) + 1)
+            Y = np.asarray(sy._ExtendedSymplectic(order=order).integrate(ham1, z0.copy(), tt).states)
+            errs.append(float(np.max(np.abs(Y - exact1(tt)))))
+        tr = cs.trace(f"order={order}|linear-terms", {"error_vs_exact_flow": -10},
+                      {"order": order, "path": "hamiltonian-with-linear-terms"})
+        ck.count(("linear-terms", order), True)
+        # observed 2e-4 .. 2e-3 (the default coupling omega = (20 dt)^-order grows as dt shrinks, so the error is NOT monotone in dt
+        # through the public integrator; convergence at FIXED omega is decided by the TaoOrder model); a vector field that ignores
+        # the linear part is off by O(|b|) = 0.5
+        cs.obs(tr, "error_vs_exact_flow", max(errs))
+        if len(ck.cov["samples"]) < 16:
+            ck.sample({"linear_terms_case": f"order={order}", "error_dt=0.02": errs[0], "error_dt=0.01": errs[1]})
     cs.decide(key_fn=lambda tr, n: f"_ExtendedSymplectic|{tr['data']['path']}|{n}")
     cs.selftest()
